@@ -80,7 +80,16 @@ Overlay(dc, x) ==
 
 (* L2 traces: the harness restates, for every Cycle line, what the manifests    *)
 (* declare (decl_apps) and the partition / priority in force (declared, oprio)  *)
-FrozenL2(line, x) ==
+(* the traits a server reported with the ONE registration the master is bound   *)
+(* to hold (spells[s] has a single entry; its 4th element lists them)           *)
+TraitsL2(line, x) ==
+  IF "spells" \notin DOMAIN line THEN x
+  ELSE [x EXCEPT !.servers = [s \in DOMAIN x.servers |->
+          IF s \in DOMAIN line.spells /\ Len(line.spells[s]) = 1 /\ Len(line.spells[s][1]) >= 4
+          THEN [x.servers[s] EXCEPT !.traits = SetOf(line.spells[s][1][4])] ELSE x.servers[s]]]
+
+FrozenL2(line, x0) ==
+  LET x == TraitsL2(line, x0) IN
   IF "obs_frozen" \notin DOMAIN line THEN x
   ELSE [x EXCEPT !.servers = [s \in DOMAIN x.servers |->
           IF s \in SetOf(line.obs_frozen)
